@@ -433,3 +433,89 @@ func init() {
 		},
 	}))
 }
+
+// fleet-receiveonly: one instance runs in receive-only mode. It must merge
+// what the others publish, and never store or delete anything.
+func init() {
+	RegisterProfile(&Profile{Name: "fleet-receiveonly", Property: "C12", Run: func(env *RunEnv) {
+		t := env.Tape
+		cfg := swarmBase(t)
+		cfg.N = 2 + t.Choose("cfg-n8", 2)
+		swarmFaults(t, &cfg)
+		cfg.Cleanup = cleanupCfg(t)
+		cfg.Cleanup.Enabled = true
+		f, err := NewFleet(env.Sim, env.Root, cfg)
+		if err != nil {
+			env.Res.HarnessErr = err.Error()
+			return
+		}
+		defer f.Close()
+		ro := f.Nodes[len(f.Nodes)-1]
+		ro.Opt.ReceiveOnly = true
+		env.Sim.Logf("cfg fleet-receiveonly n=%d native=%v receive-only=%s", cfg.N, cfg.Native, ro.Name)
+		mon := &monReceiveOnly{node: ro}
+		f.Mon = []Monitor{mon}
+		f.RunWorkload()
+		if !f.Failed() {
+			f.Drain(cfg.DrainTime())
+		}
+		f.Finish()
+		env.Res.Violations = f.Violations
+		env.Res.SimMs = int64(f.Sim.Now() / time.Millisecond)
+		env.Res.Counts = map[string]int{"ro_loads": mon.loads}
+		env.Res.Nontrivial = len(ro.LoadedEvents()) > 0
+	}})
+}
+
+type monReceiveOnly struct {
+	BaseMonitor
+	node  *Node
+	loads int
+}
+
+func (m *monReceiveOnly) BucketOp(f *Fleet, op *BucketOp) {
+	if op.Node != m.node.Name {
+		return
+	}
+	switch op.Op {
+	case "load":
+		m.loads++
+	case "store", "delete":
+		f.Violate(Violation{"C12", "receive-only-silent", "receive-only-" + op.Op,
+			fmt.Sprintf("receive-only instance %s issued %s %s", m.node.Name, op.Op, op.Name)})
+	}
+}
+
+func cleanupCfg(t *Tape) (c struct {
+	Enabled                    bool          `yaml:"enabled"`
+	Interval                   time.Duration `yaml:"interval"`
+	MustKeepInterval           time.Duration `yaml:"must_keep_interval"`
+	RemoveOldInstancesInterval time.Duration `yaml:"remove_old_instances_interval"`
+}) {
+	c.Interval = pick(t, "cfg-cl-int", 2*time.Second, 5*time.Second, 500*time.Millisecond)
+	c.MustKeepInterval = pick(t, "cfg-cl-keep", time.Second, 4*time.Second, 0)
+	c.RemoveOldInstancesInterval = pick(t, "cfg-cl-stale", 10*time.Second, 30*time.Second, 3*time.Second)
+	return
+}
+
+func init() {
+	RegisterProfile(fleetProfile("fleet-cleaner", "C12", FleetRun{
+		Gen: func(t *Tape) FleetCfg {
+			c := swarmBase(t)
+			c.N = 2 + t.Weighted("cfg-n9", []int{3, 2})
+			swarmFaults(t, &c)
+			c.CrashRate = pick(t, "cfg-crash9", 5, 0, 15)
+			c.Cleanup = cleanupCfg(t)
+			c.Cleanup.Enabled = true
+			c.Cleanup.RemoveOldInstancesInterval = pick(t, "cfg-cl-stale9", 3*time.Second, 8*time.Second, 0)
+			c.BigDelta = pick(t, "cfg-bigdelta9", 100, 250)
+			return c
+		},
+		Mons: func(f *Fleet) []Monitor { return []Monitor{&MonC12Fleet{}} },
+		Post: func(f *Fleet, r *RunResult) {
+			m := f.Mon[0].(*MonC12Fleet)
+			r.Counts["cleaner_deletes"] = m.Deletes
+			r.Nontrivial = m.Deletes > 0
+		},
+	}))
+}
